@@ -22,7 +22,7 @@ def programs(tier: str, want=None, continuous=True, regen_only=False):
             out.append(n)
         else:
             d2 += 1
-            if tier == "thorough" or d2 % 6 == 0:
+            if tier == "thorough" or d2 % 8 == 0:
                 out.append(n)
     return out
 
